@@ -303,7 +303,14 @@ def _run_pool_case(case, ch, workdir, res):
         if status2 == "hang":
             violation(res, "wedged", "pool", f"resubmission did not terminate: {val2}; {ctx}")
         elif status2 != "ok":
-            violation(res, "resub-error", "pool", f"resubmission raised {val2.get('type')}: {val2.get('msg', '')[:400]}; {ctx}")
+            m2 = val2.get("msg", "") if isinstance(val2, dict) else ""
+            psig = "pool"
+            if "FileNotFoundError" in m2 and "in load_result" in m2 and "_result.pklz" in m2 and "in update_status" in m2:
+                # the polling loop's load_result saw the torn result file of the killed worker
+                # (exists, size > 0) and opened it just after the worker re-running the job had
+                # removed the job directory: own signature, a recorded finding
+                psig = "pool/load-result-toctou"
+            violation(res, "resub-error", psig, f"resubmission raised {val2.get('type')}: {val2.get('msg', '')[:200]} ... {val2.get('msg', '')[-900:]}; {ctx}")
         elif val2 != rval:
             violation(res, "wrong-result", "pool", f"resubmission returned {str(val2)[:200]}, reference {str(rval)[:200]}; {ctx}")
         for key, n in enters.items():
